@@ -18,6 +18,7 @@ defect was visible to the oracle only; now `frame=None` is part of the model (`L
 positive regression witnesses `visibility_frameless_*` below (the harness replays them on the real method on every run).
 -/
 import BeyondVerif.Model.ListenKinds
+import BeyondVerif.Props.C10
 namespace BeyondVerif.C10W
 open BeyondVerif.Listen
 
@@ -79,5 +80,42 @@ theorem visibility_frameless_node_and_los :
     visibility ⟨fun t => t - 1500, fun _ => 1, fun _ => 0, fun _ => 0, 0⟩ [(.node, none)]
       ⟨fun t => 2500 - t, fun _ => -1, fun _ => 0, fun _ => 0, 0⟩ false true [none, none, none] [0, 1000, 2000, 3000] =
       [⟨0, none⟩, ⟨1000, none⟩, ⟨1500, some (0, "Asc Node")⟩, ⟨2000, none⟩, ⟨2500, some (1, "LOS")⟩] := by decide +kernel
+
+/-! ### open finding C10-penumbra-half-angle: COUNTER-witness on the formulas translated from the source -/
+
+theorem sqrt_16_25 : Real.sqrt (1 - (3 / 5 : ℝ) ^ 2) = 4 / 5 := by
+  rw [show (1 - (3 / 5 : ℝ) ^ 2) = (4 / 5) ^ 2 by norm_num]
+  exact Real.sqrt_sq (by norm_num)
+
+theorem sqrt_9_25 : Real.sqrt (1 - (4 / 5 : ℝ) ^ 2) = 3 / 5 := by
+  rw [show (1 - (4 / 5 : ℝ) ^ 2) = (3 / 5) ^ 2 by norm_num]
+  exact Real.sqrt_sq (by norm_num)
+
+/-- A geometry (in units where everything is rational: R_sun = 7/2, R_body = 1/2, |x_sun| = 5, |x_sat| = 5,
+x_sun · x_sat = −15, i.e. 3 behind the body and 4 off the axis) for which `LightListener("penumbra")` — the formulas
+of `Generated/LightSrc`, translated from the current source — reports FULL LIGHT (+1), although the point lies inside the
+penumbra cone of the property text, the cone tangent to the body with `sin α = (R_sun + R_body) / d = 4/5`
+(bound 29/6 ≥ 4 at that distance; the code's cone, `sin α = (R_sun − R_body) / d = 3/5`, stops at 23/8 < 4).
+This is the penumbra clause of C10 falsified by the code: the listener uses the umbra half-angle for both cones.
+When /repo is fixed (`proposed_fixes/C10-penumbra-half-angle.diff`) this theorem stops checking and the model follows. -/
+theorem penumbra_half_angle_witness :
+    R.lightValue true (7 / 2) (1 / 2) 5 5 (-15) = 1 ∧
+      (5 : ℝ) * Real.sqrt (1 - (3 / 5 : ℝ) ^ 2) ≤ C10.coneBound ((7 / 2 + 1 / 2) / 5) (1 / 2) 3 1 := by
+  constructor
+  · have key := C10.light_geometry true (7 / 2) (1 / 2) 5 5 (-15) (by norm_num) (by norm_num)
+      (by rw [abs_of_neg (by norm_num)]; norm_num) (by norm_num) (by norm_num)
+    have e1 : ((7 / 2 : ℝ) - 1 / 2) / 5 = 3 / 5 := by norm_num
+    have e2 : -(-15 : ℝ) / (5 * 5) = 3 / 5 := by norm_num
+    simp only [e1, e2] at key
+    rcases C10.light_value_pm_one true (7 / 2) (1 / 2) 5 5 (-15) with h | h
+    · exfalso
+      have h2 := (key.1 h).2.1
+      unfold C10.coneBound at h2
+      rw [sqrt_16_25] at h2
+      norm_num at h2
+    · exact h
+  · unfold C10.coneBound
+    rw [sqrt_16_25, show ((7 / 2 + 1 / 2 : ℝ) / 5) = 4 / 5 by norm_num, sqrt_9_25]
+    norm_num
 
 end BeyondVerif.C10W
